@@ -4,7 +4,7 @@
    clause is the outermost step, it changes nothing but OverflowError -> ValueError, and therefore a duration whose exact value
    does not fit a timedelta is REJECTED by both backends (for every digit string), while every other result is untouched. *)
 From Coq Require Import ZArith List Bool Lia.
-From PV Require Import Lib.PyBase Model.DurParse Model.DurSpec Proofs.C13Int Proofs.C13Main Proofs.C13Facts Proofs.C17Total.
+From PV Require Import Lib.PyBase Model.DurParse Model.DurSpec Proofs.C13Int Proofs.C13Main Proofs.C13Facts Proofs.C17Rs.
 Import ListNotations.
 Open Scope Z_scope.
 
